@@ -208,6 +208,8 @@ func init() {
 		"{}", `{"F":1}`, `{"f":1}`, `{"F":null}`, `{"F":"x"}`, `{"F":1,"F":2}`, `{"F":1,"f":2}`, `{"f":1,"F":2}`, `{"G":1}`, `{"":1}`, `{"F":1,"Unknown":[1,{"a":2}]}`, `{"F":[1,2]}`, `{"F":{"F":1}}`, `{"a":1,"b":2}`, `{"1":1,"-2":2}`, `{"1.5":1}`, `{"A":1,"a":2}`, `{"F":1,}`, `{"F" 1}`, `{"F":1 "G":2}`, `{F:1}`, `{`, `{"F"`, `{"F":`, `{"F":1`,
 		`{"ID":7,"name":"n","Extra":true,"Level":3,"Misc":"m","id":9,"Inner":"i"}`, `{"Name":1,"NAME":2,"name":3,"nAmE":4,"Name2":5}`, `{"ſhort":1,"Key":2}`, `{"vm":5}`, `[5,"x"]`, `"vt<5>"`, `"pt&5"`, `"vms:x"`, `"pts:y"`, `"i7"`, "1007", `"3-4"`, `"p9"`,
 		`{"a":"x","b":null}`, `{"a":1,"b":null}`, `{"a":[1],"b":null}`, `{"a":true,"b":null}`, `{"a":{"a":1},"b":null}`, `{"a":["x"],"b":null,"c":[]}`, `["x",null]`, `[1,null]`, `[[1],null]`, `[{"a":1},null]`, `[true,null,false]`, `{"F":"x","G":null}`, `{"F":1,"G":null}`,
+		// the same one level further down: a null element after a sibling container held a value in its place
+		`{"a":["x","y"],"b":[null,"z"]}`, `{"a":[1,2],"b":[null,3]}`, `{"a":[true],"b":[null]}`, `[["x","y"],[null,"z"]]`, `[[1,2],[null,3]]`, `{"a":{"k":"v"},"b":{"k":null}}`, `{"a":{"k":1},"b":{"k":null,"l":2}}`, `[{"a":"x"},{"a":null}]`, `{"a":true,"a":null}`, `{"a":"x","a":null}`, `{"a":[["x"]],"b":[[null]]}`,
 		" 1 ", "\n\t[ 1 , 2 ]\r\n", "1 2", "1}", "nul", "nulll", "tru", "True", "NaN", "Infinity", "", " ",
 	} {
 		literalDocs = append(literalDocs, []byte(s))
@@ -419,9 +421,10 @@ type histItem struct{ A, B int }
 var histTargets = []reflect.Type{
 	jgen.T[[]histItem](), jgen.T[[]*histItem](), jgen.T[[]map[string]int](), jgen.T[[][]int](), jgen.T[[2]histItem](), jgen.T[map[string][]histItem](),
 	jgen.T[struct{ L []histItem }](), jgen.T[*[]histItem](), jgen.T[[]any](), jgen.T[map[string]*histItem](), jgen.T[[]jgen.NamedAny](), jgen.T[any](),
+	jgen.T[map[string]stdjson.RawMessage](), jgen.T[map[string]string](), jgen.T[map[string]bool](), jgen.T[map[string]any](), jgen.T[map[string][]string](), jgen.T[map[string]int](),
 }
 
-var histDocs = []string{`[{"A":1}]`, `[]`, `[{"B":2}]`, `null`, `[{"A":3},{"B":4}]`, `[{}]`, `[null]`, `{"k":[{"A":5}]}`, `{"k":[{"B":6}],"L":[{"B":7}]}`, `{"k":null,"L":[]}`, `[{"A":8},{"A":9}]`, `[{"B":2},{"A":9},{"A":1,"B":1}]`, `{"k":[{"B":1},{"A":2}]}`}
+var histDocs = []string{`[{"A":1}]`, `[]`, `[{"B":2}]`, `null`, `[{"A":3},{"B":4}]`, `[{}]`, `[null]`, `{"k":[{"A":5}]}`, `{"k":[{"B":6}],"L":[{"B":7}]}`, `{"k":null,"L":[]}`, `[{"A":8},{"A":9}]`, `[{"B":2},{"A":9},{"A":1,"B":1}]`, `{"k":[{"B":1},{"A":2}]}`, `{"k":"v"}`, `{"m":true,"k":null}`, `{,"c":3}`, `{"l":["x"],"k":[null]}`}
 
 func histories(c *explore.Ctx) {
 	t := histTargets[c.Choose(len(histTargets))]
@@ -687,7 +690,7 @@ func Spec() *explore.Spec {
 				Doc: "every type shape of C01's universe (~6700) x {valid documents derived from the type's domain, 200 literal documents: number/string/key tables, malformed forms} x prior state {zero, 6 pre-set values incl. interface-held pointers, result of decoding an earlier document} x entry {Unmarshal, Parse, Decoder x UseNumber x DisallowUnknownFields}; one non-default choice among (entry, prior) per case (two in thorough)"},
 			{Name: "mutated", ShardDepth: 1, Body: mutated, Doc: "leaf / hand-written / map / first-level wrapper types x valid documents x every truncation, deletion, substitution and insertion over a 16-byte class alphabet"},
 			{Name: "token-seqs", ShardDepth: 2, Body: tokenSeqs, Doc: "all token sequences up to 4 (5 thorough) over 18 tokens x 25 target types"},
-			{Name: "histories", ShardDepth: 2, Body: histories, Doc: "every sequence of up to 3 documents (13 documents: arrays that grow, shrink to a shorter non-empty array or to [], null, objects; elements given in part, so that what an element keeps from an earlier decode shows) decoded one after the other into the same variable of 12 slice / array / map / pointer / interface shapes"},
+			{Name: "histories", ShardDepth: 2, Body: histories, Doc: "every sequence of up to 3 documents (17 documents: arrays that grow, shrink to a shorter non-empty array or to [], null, objects; elements given in part, so that what an element keeps from an earlier decode shows) decoded one after the other into the same variable of 18 slice / array / map (incl. the six map[string]X shapes with codecs of their own) / pointer / interface shapes"},
 			{Name: "string-option", ShardDepth: 2, Body: stringOption, Doc: "struct fields tagged ',string' of 22 kinds (floats, signed/unsigned integers, bool, string, pointers to them, Number, any, and float / int / string / bool kinds with their own UnmarshalJSON or UnmarshalText) x every content string built from <= 3 (thorough 4) of 20 tokens (digits, signs, dot, exponent and hex letters, underscore, white space, true/false/null, escaped quotes, Inf, NaN, escapes) - quoted and bare - x {zero, pre-set} target"},
 			{Name: "self-reference", ShardDepth: 2, FatalPerCase: true, Body: selfReference, Doc: "targets whose interface value (any, named empty interface, struct field, slice / array element) holds a pointer to itself, plus a non-cyclic control, x 17 documents x 6 entry points: same result as encoding/json, which decodes into such an interface as if it was empty (a decoder that follows the pointer never returns)"},
 			{Name: "number-literals", ShardDepth: 2, Body: numberLiterals, Doc: "every float64 exponent x 3 (thorough 6) mantissa patterns x both signs, written in ~30 ways (shortest, fixed / exponent / general form with 15..25 digits, float32-shortest, one more digit towards and over the rounding boundary, upper-case exponent) decoded into float64, float32, any and (two mantissas per exponent) pointer, slice, map, struct, integer and array targets x Unmarshal (thorough: also Parse, Decoder): same acceptance and same value as encoding/json"},
